@@ -211,3 +211,11 @@ Proof.
     (rewrite orb_true_r in E;
      destruct (serialize_recs _ _ _ _ _ _ _ Hn E) as [(_ & Hse) | R]; [discriminate | exact R]).
 Qed.
+
+Lemma field_chunk enc sc f sel v chunk :
+  1 <= fnum f -> emit_field enc sc f sel v = Ok chunk ->
+  exists rs, records chunk = Some rs /\ Forall (fun r => fst r = fnum f) rs.
+Proof.
+  intros Hn E. destruct (emit_field_allnum enc sc f sel v chunk Hn E) as (rs & R & F).
+  exists rs. split; [apply Recs_records; exact R | exact F].
+Qed.
